@@ -2,7 +2,7 @@
 # tools/seeded_matrix.sh [ids...] : run each stored seeded defect against the check of its property
 # in a scratch worktree (VERIF_REPO), print detected / MISSED / does-not-apply.
 cd "$(dirname "${BASH_SOURCE[0]}")/.."
-WT=/tmp/wt/matrix
+WT=${MATRIX_WT:-/tmp/wt/matrix}
 git -C /repo worktree add -q --detach "$WT" HEAD 2>/dev/null || git -C "$WT" checkout -q --detach "$(git -C /repo rev-parse HEAD)"
 for d in ${@:-$(ls seeded)}; do
   P=${d:0:3}
